@@ -1437,6 +1437,15 @@ init_decompression(struct archive_read *a, struct _7zip *zip,
 	return (ARCHIVE_OK);
 }
 
+/* Branch converters that keep an incomplete unit from one call to the next. */
+static int
+is_block_bcj(unsigned long codec2)
+{
+	return (codec2 == _7Z_X86 || codec2 == _7Z_ARM ||
+	    codec2 == _7Z_ARM64 || codec2 == _7Z_SPARC ||
+	    codec2 == _7Z_POWERPC);
+}
+
 static int
 decompress(struct archive_read *a, struct _7zip *zip,
     void *buff, size_t *outbytes, const void *b, size_t *used)
@@ -1454,12 +1463,14 @@ decompress(struct archive_read *a, struct _7zip *zip,
 	t_next_in = b;
 	t_next_out = buff;
 
-	if (zip->codec != _7Z_LZMA2 && zip->codec2 == _7Z_X86) {
+	if (zip->codec != _7Z_LZMA2 && is_block_bcj(zip->codec2)) {
 		int i;
 
 		/* Do not copy out the BCJ remaining bytes when the output
-		 * buffer size is less than five bytes. */
-		if (o_avail_in != 0 && t_avail_out < 5 && zip->odd_bcj_size) {
+		 * buffer size is less than one unit of the converter
+		 * (five bytes for x86, four for the others). */
+		if (o_avail_in != 0 && zip->odd_bcj_size &&
+		    t_avail_out < (zip->codec2 == _7Z_X86 ? 5U : 4U)) {
 			*used = 0;
 			*outbytes = 0;
 			return (ret);
@@ -1720,14 +1731,31 @@ decompress(struct archive_read *a, struct _7zip *zip,
 				*outbytes = l;
 			} else
 				zip->odd_bcj_size = 0;
-		} else if (zip->codec2 == _7Z_ARM) {
-			*outbytes = arm_Convert(zip, buff, *outbytes);
-		} else if (zip->codec2 == _7Z_ARM64) {
-			*outbytes = arm64_Convert(zip, buff, *outbytes);
-		} else if (zip->codec2 == _7Z_SPARC) {
-			*outbytes = sparc_Convert(zip, buff, *outbytes);
-		} else if (zip->codec2 == _7Z_POWERPC) {
-			*outbytes = powerpc_Convert(zip, buff, *outbytes);
+		} else if (is_block_bcj(zip->codec2)) {
+			/*
+			 * These converters work on units of four bytes.
+			 * What is left over when the decompressor stopped
+			 * inside a unit is kept for the next call; at the
+			 * end of the stream it is passed on as it is.
+			 */
+			size_t l;
+
+			if (zip->codec2 == _7Z_ARM)
+				l = arm_Convert(zip, buff, *outbytes);
+			else if (zip->codec2 == _7Z_ARM64)
+				l = arm64_Convert(zip, buff, *outbytes);
+			else if (zip->codec2 == _7Z_SPARC)
+				l = sparc_Convert(zip, buff, *outbytes);
+			else
+				l = powerpc_Convert(zip, buff, *outbytes);
+			zip->odd_bcj_size = *outbytes - l;
+			if (zip->odd_bcj_size > 0 && zip->odd_bcj_size <= 3 &&
+			    o_avail_in && ret != ARCHIVE_EOF) {
+				memcpy(zip->odd_bcj, ((unsigned char *)buff) + l,
+				    zip->odd_bcj_size);
+				*outbytes = l;
+			} else
+				zip->odd_bcj_size = 0;
 		}
 	}
 
@@ -3348,7 +3376,7 @@ extract_pack_stream(struct archive_read *a, size_t minimum)
 		if (zip->uncompressed_buffer_bytes_remaining ==
 		    zip->uncompressed_buffer_size)
 			break;
-		if (zip->codec2 == _7Z_X86 && zip->odd_bcj_size &&
+		if (is_block_bcj(zip->codec2) && zip->odd_bcj_size &&
 		    zip->uncompressed_buffer_bytes_remaining + 5 >
 		    zip->uncompressed_buffer_size)
 			break;
